@@ -27,7 +27,7 @@ from rules import c18_wire_dora as DS
 
 DORA_FILES = ["pkgs/boots/deserializer.dora", "pkgs/boots/serializer.dora", "pkgs/boots/bytecode/deserializer.dora"]
 PREFIX = re.compile(r"^(encode|decode|serialize|deserialize|write|read|emit)_")
-VIOLATION_KINDS = ("width", "count", "kind", "length-prefix", "tag-source", "tag-unread", "tag-variant", "class")
+VIOLATION_KINDS = ("width", "count", "kind", "length-prefix", "tag-source", "tag-unread", "tag-variant", "class", "permuted")
 
 
 def stem(name):
@@ -177,4 +177,21 @@ def _unimplemented(D):
 
 
 def _roots(r, F, rs, ds, fns, stems, cmp, counted):
-    return 0
+    from rules import c18_wire_roots as RT
+    notes = []
+    try:
+        rfns, pairs = RT.build_root_pairs(F, rs, ds, F.dora(), notes.append)
+    except Exception as e:                                      # noqa: BLE001
+        _analysis(r, "root-messages", "root messages could not be collected: %s: %s" % (type(e).__name__, e))
+        return 0
+    for n in notes:
+        r.observe(n)
+    fns.update(rfns)
+    n = 0
+    for (wk, rk, link) in pairs:
+        W, R = fns[wk], fns[rk]
+        why = IR.opaque_reasons(W.seq) + IR.opaque_reasons(R.seq)
+        diffs = cmp.pair(wk, rk)
+        if report_pair(r, cmp, W, R, diffs, counted) or not why:
+            n += 1
+    return n
